@@ -8,8 +8,13 @@ ENV = dict(os.environ, PYTHONDONTWRITEBYTECODE="1")
 
 
 def scratch():
+    """a copy of /repo's working tree (incl. the built registry archives, which are not tracked by git)"""
     tmp = tempfile.mkdtemp(prefix="seed-")
-    subprocess.check_call("git -C /repo archive HEAD | tar -x -C %s" % tmp, shell=True)
+    for d in os.listdir("/repo"):
+        if d == ".git":
+            continue
+        src = os.path.join("/repo", d)
+        (shutil.copytree if os.path.isdir(src) else shutil.copy)(src, os.path.join(tmp, d))
     return tmp
 
 
